@@ -563,8 +563,9 @@ def cleanup_model(model: Model):
 
     current = {}
     newstats = []
+    dvs = set(model.dependent_variables.keys())
     for s in model.statements:
-        if isinstance(s, Assignment) and s.expression.is_symbol():
+        if isinstance(s, Assignment) and s.expression.is_symbol() and s.symbol not in dvs:
             # NOTE: The right hand side could itself be a removed symbol
             current[s.symbol] = s.expression.subs(current)
         else:
